@@ -7,9 +7,11 @@
      (5 s)                     ansi_escape / html_escape -> (str str)
      (6 s)                     HTML(s)                -> (0 (frag ...)) | (err)
      (7 (part ...) (v ...))    HTML template          -> likewise
+     (8 style ac value)        to_formatted_text(value, style, auto_convert) -> likewise (value: see Model/C18_Convert.v)
+     (9 s)                     ansi_strip s, ansi_zero_width s (the grammar-level specification) -> (text (payload ...))
    frag = (style text rest). *)
 From Coq Require Import ZArith List Bool.
-From PTK Require Import Lib.Sx Lib.Py Model.C18_Fragments Model.C18_Ansi Model.C18_Html.
+From PTK Require Import Lib.Sx Lib.Py Model.C18_Fragments Model.C18_Ansi Model.C18_Html Model.C18_Convert Model.C18_AnsiGrammar.
 Import ListNotations.
 Open Scope Z_scope.
 
@@ -58,6 +60,16 @@ Definition run_C18 (c : sx) : sx :=
       | Some ps', Some vs' =>
           if len ps' =? len vs' + 1 then enc_res (html_template cfg_now ps' vs') else bad_case
       | _, _ => bad_case
+      end
+  | L [A 9; s] =>
+      match as_str s with
+      | Some s' => L [sx_str (ansi_strip s'); L (map sx_str (ansi_zero_width s'))]
+      | None => bad_case
+      end
+  | L [A 8; st; ac; v] =>
+      match as_str st, as_bool ac, dec_fval v with
+      | Some st', Some ac', Some v' => enc_res (to_formatted_text st' ac' v')
+      | _, _, _ => bad_case
       end
   | _ => bad_case
   end.
